@@ -341,7 +341,9 @@ def execute(sc):
                 elif kind == 'update':
                     def upd():
                         m = ManifestRecursiveLoader(top_given, hashes=['SHA256'], **kw)
-                        m.update_entries_for_directory('')
+                        # (half of the updates are incremental ones with a last_mtime later than every file: nothing needs
+                        # re-hashing, every object still has to pass the device and loop checks)
+                        m.update_entries_for_directory('', **({'last_mtime': 2.0 ** 33} if op.get('pick', 0) % 2 else {}))
                         m.save_manifests()
                         return True
                     r = call(upd)
